@@ -22,9 +22,6 @@ def classify(f):
     """Narrow classifiers of the listed findings. f is one failure group of the harness."""
     cls, site, msg = f.get("class", ""), f.get("site", "") or "", f.get("msg", "") or ""
     entry, tag, mini = f.get("entry", "") or "", f.get("tag", "") or "", f.get("minimal", "") or ""
-    if cls == "PANIC" and "(*Stack).GetExpressions" in site and "StackElem is nil" in msg \
-            and re.search(r"\((def|set)\s*(%|\(quote\b)", mini):
-        return "def-quoted-lhs-no-value"
     if f.get("stream") == "specials":
         name = tag.split(":", 1)[1] if ":" in tag else tag
         stack = "stack exceeds" in site or "stack overflow" in site
